@@ -31,3 +31,27 @@ func (e Etc) ProcessTailExp(p TailExpProcessor) {
 func (e Etc) HWrite(w HWriter) {
 	w.Writef("...")
 }
+
+// BEtc is "..." in brackets: "(...)" evaluates to the first of the extra
+// arguments only, so unlike Etc it is not a TailExpNode.
+type BEtc struct {
+	Location
+	etc Etc
+}
+
+var _ ExpNode = BEtc{}
+
+// InBrackets turns the receiver into a BEtc.
+func (e Etc) InBrackets() BEtc {
+	return BEtc{Location: e.Location, etc: e}
+}
+
+// ProcessExp uses the given ExpProcessor to process the receiver.
+func (e BEtc) ProcessExp(p ExpProcessor) {
+	p.ProcessEtcExp(e.etc)
+}
+
+// HWrite prints a tree representation of the node.
+func (e BEtc) HWrite(w HWriter) {
+	w.Writef("(...)")
+}
